@@ -188,7 +188,7 @@ FAMILIES = [
 
 def run(ctx):
     E.init()
-    from annet import patching, rulebook
+    from annet import patching, rulebook, api
     from annet.annlib import lib
     from annet.vendors import registry_connector
     quick = ctx.tier == "quick"
@@ -248,8 +248,12 @@ def run(ctx):
             rec = {"id": "%s-%d" % (tag, len(recs)), "kind": "patch", "family": fam.name, "old": [lex_ranges(fam.sep.join(x)) for x in lo],
                    "new": [lex_ranges(fam.sep.join(x)) for x in ln]}
             try:
-                d = patching.make_diff(old, new, rb, [])
-                p = patching.make_patch(patching.make_pre(d), rb, hw, False)
+                if len(recs) % 2:
+                    # the production composition (`annet patch` / `annet deploy`): diff, grouping and patch as the caller wires them
+                    _d, p = api._diff_and_patch(E.device(hw), old, new, None, None, False)
+                else:
+                    d = patching.make_diff(old, new, rb, [])
+                    p = patching.make_patch(patching.make_pre(d), rb, hw, False)
                 cmds = []
                 for path in fmt.cmd_paths(p):
                     c = fam.lex(path)
